@@ -343,14 +343,10 @@ func (ContextualPos) isGPOSLookup()        {}
 func (ChainedContextualPos) isGPOSLookup() {}
 func (ExtensionPos) isGPOSLookup()         {}
 
-func (sp *SinglePos) Sanitize() error {
-	if f2, isFormat2 := sp.Data.(SinglePosData2); isFormat2 {
-		if exp, got := f2.coverage.Len(), len(f2.ValueRecords); exp != got {
-			return fmt.Errorf("GPOS: invalid SinglePos values count (%d != %d)", exp, got)
-		}
-	}
-	return nil
-}
+// Sanitize accepts a number of values different from the number of
+// covered glyphs: fonts with fewer values exist (and harfbuzz
+// accepts them); [SinglePosData2.ValueRecords] must be accessed with a bounds check.
+func (sp *SinglePos) Sanitize() error { return nil }
 
 func (pp *PairPos) Sanitize() error {
 	if f1, isFormat1 := pp.Data.(PairPosData1); isFormat1 {
